@@ -517,7 +517,6 @@ def ast_tables_from_dump(txt):
         body = [c for c in d.get("inner", []) if c.get("kind") == "CompoundStmt"]
         if not body:
             continue
-        m = re.match(r"_ZNK(?:\d+[A-Za-z_]\w*?)??(\d+)", d.get("mangledName", ""))
         mm = re.match(r"_ZNK\d+icinga(\d+)", d.get("mangledName", "")) or re.match(r"_ZNK(\d+)", d.get("mangledName", ""))
         if not mm:
             continue
@@ -755,6 +754,64 @@ def extract(repo, build=None, cache=None, use_ast=True):
     return t
 
 
+# ------------------------------------------------------------------------------------------------
+# Self-test: fragments with equivalent spellings (must be recognised) and removed/weakened guards (must not)
+
+def selftest(use_ast=True):
+    """Runs both extractors over gen/c19_selftest/*.cpp; returns a list of failure descriptions."""
+    import glob as _glob
+    import shutil
+    import subprocess
+    d = os.path.join(os.path.dirname(os.path.abspath(__file__)), "c19_selftest")
+    files = sorted(_glob.glob(os.path.join(d, "*.cpp")))
+    fails, checked = [], 0
+    if len(files) < 20:
+        return ["self-test corpus incomplete: %d fragments in %s" % (len(files), d)], 0
+    clang = (shutil.which("clang++-14") or shutil.which("clang++")) if use_ast else None
+    sig = re.compile(r"^ExpressionResult\s+(\w+)::DoEvaluate\s*\(\s*ScriptFrame\s*&\s*frame\s*,\s*DebugHint\s*\*\s*dhint\s*\)\s*const\s*\{", re.M)
+    for f in files:
+        raw = open(f, encoding="utf-8").read()
+        exp = {}
+        for m in re.finditer(r"//\s*EXPECT\s+(.*)", raw):
+            for kv in m.group(1).split():
+                k, v = kv.split("=")
+                exp[k] = v == "1"
+        src = strip_comments(raw)
+        got = {}
+        for k, b in bodies(src, sig):
+            got[k] = text_node_guard(b)
+            if k == "FunctionCallExpression":
+                got = {"callCheck": text_call_check(b)}
+        for _, b in bodies(src, re.compile(r"^Value\s+(Object)::GetFieldByName\s*\([^)]*bool\s+sandboxed[^)]*\)\s*const\s*\{", re.M)):
+            got["fieldCheck"] = text_field_check(b)
+        for _, b in bodies(src, re.compile(r"^bool\s+(IndexerExpression)::GetReference\s*\([^)]*\)\s*const\s*\{", re.M)):
+            got["initDictOff"] = text_init_dict_off(b)
+        for _, b in bodies(src, re.compile(r"^Value\s+(Reference)::Get\s*\(\s*\)\s*const\s*\{", re.M)):
+            m = re.search(r"GetFieldByName\s*\(", b)
+            p0 = b.index("(", m.end() - 1)
+            got["refGetSandboxed"] = norm_atom(split_args(b[p0 + 1:match_close(b, p0, "(", ")")])[1]) == "true"
+        for k, v in exp.items():
+            checked += 1
+            if got.get(k) is not v:
+                fails.append("%s: token-level extractor says %s=%s, expected %s" % (os.path.basename(f), k, got.get(k), v))
+        if clang and not f.endswith(".txt.cpp"):
+            p = subprocess.run([clang, "-std=gnu++17", "-fsyntax-only", "-w", "-I" + d, "-Xclang", "-ast-dump=json",
+                                "-Xclang", "-ast-dump-filter=DoEvaluate", f], stdout=subprocess.PIPE, stderr=subprocess.PIPE)
+            if p.returncode != 0:
+                fails.append("%s: fragment does not compile: %s" % (os.path.basename(f), p.stderr.decode()[-300:]))
+                continue
+            a = ast_tables_from_dump(p.stdout.decode("utf-8", "replace"))
+            if a is None:
+                fails.append("%s: no AST result" % os.path.basename(f))
+                continue
+            for k, v in exp.items():
+                checked += 1
+                g = a["callCheck"] if k == "callCheck" else a["guards"].get(k)
+                if g is not v:
+                    fails.append("%s: AST extractor says %s=%s, expected %s" % (os.path.basename(f), k, g, v))
+    return fails, checked
+
+
 def lean_str(s):
     return '"' + s.replace("\\", "\\\\").replace('"', '\\"') + '"'
 
@@ -831,6 +888,12 @@ def generate(repo, out_path, build=None, cache=None, use_ast=True):
 
 
 if __name__ == "__main__":
+    if len(sys.argv) > 1 and sys.argv[1] == "--selftest":
+        fails, n = selftest()
+        print("self-test: %d expectations checked, %d failures" % (n, len(fails)))
+        for x in fails:
+            print("  " + x)
+        sys.exit(1 if fails else 0)
     repo = sys.argv[1] if len(sys.argv) > 1 else "/repo"
     out = sys.argv[2] if len(sys.argv) > 2 else os.path.join(os.path.dirname(os.path.dirname(os.path.abspath(__file__))), "lean", "IcingaProofs", "Gen", "SandboxGuards.lean")
     try:
